@@ -116,7 +116,7 @@ def run_part(pid, part, tier, seed, outdir, replay):
     cmd = part_cmd(part, overlay, tier)
     log = os.path.join(outdir, part["name"] + ".log")
     env = goenv({"VERIF_TIER": tier, "VERIF_SEED": str(seed), "VERIF_OUT": outdir, "VERIF_PART": part["name"],
-                 "GORACE": "halt_on_error=0 log_path=%s" % os.path.join(outdir, "race." + part["name"])})
+                 "GORACE": "halt_on_error=0 clear_shadow_mmap_threshold=4294967296 log_path=%s" % os.path.join(outdir, "race." + part["name"])})
     if part.get("env"):
         env.update(part["env"])
     if replay:
